@@ -3,7 +3,7 @@
 import json, os
 VERIF = os.path.dirname(os.path.dirname(os.path.abspath(__file__)))
 
-TECH = 'contract-based deductive verification: Verus (Z3) on functions extracted mechanically from /repo on every run'
+TECH = 'contract-based deductive verification: Verus (Z3) on functions extracted mechanically from /repo on every run (bounded stand-ins, labelled, for the clauses outside reach)'
 
 CLAIMED = {
  'C20': dict(
@@ -104,7 +104,9 @@ def main():
             'replay_cmd_template': 'python3 tools/replay.py {path}',
             'engine': 'contracts',
             'level_claimed': {'category': 'proof', 'text': c['text'], 'design_ref': c['ref']},
-            'level_note': c['note'],
+            'level_note': c['note'] + ' Clauses of the statement that no contract decides are exercised only by a BOUNDED stand-in on the real crate '
+                          '(domain stated in evidence.coverage.bounded; labelled bounded, never counted among obligations/discharged). A Verus failure has no model: '
+                          'a concrete failing input comes from the replay program or from Kani, otherwise the line ends with no-failing-input-found.',
             'technique': c['technique'],
         })
     na = [{'property_id': k, 'reason': v} for k, v in sorted({**NA, **PENDING}.items())]
